@@ -47,6 +47,7 @@ type Exchange struct {
 	// request caused on the back-channel links and at the upstream backends
 	Children []*Exchange
 	Arrivals []*Arrival
+	Interim  []http.Header // headers of informational (1xx) responses that preceded the final one
 }
 
 // Log is the append-only event log of one run.
